@@ -49,6 +49,7 @@ type c05Params struct {
 	apps     int  // concurrent application goroutines sharing the outbound telegrams (default 1)
 	ackFails int  // socket writes of the client's acknowledgements that may fail (transient error)
 	refuse   bool // the gateway may refuse an in-sequence telegram: it counts it, does not put it on the bus and answers with an error status
+	dupNow   bool // the network may duplicate a datagram (both copies at once); no delays: a datagram delayed across a reconnect is outside the statement (numbering restarts, the copy is taken for new by any client)
 	reconn   bool // after the first telegram in each direction the gateway ends the connection and accepts the reconnect (numbering restarts)
 	away     int  // the application does not read Inbound during the first away ms (longer than every timeout of the client)
 }
@@ -66,6 +67,9 @@ func c05Run(p c05Params) func() {
 				return
 			}
 			n := 2
+			if p.dupNow {
+				n = 3
+			}
 			if p.dupDelay {
 				n = 4
 			}
@@ -158,6 +162,14 @@ func c05Run(p c05Params) func() {
 		})
 		// the gateway's own stop-and-wait sender
 		gwSendOne := func(id int) bool {
+			// acknowledgements that arrived while the gateway had nothing outstanding were dropped on
+			// arrival (the queue only stands for the gateway's receive path)
+			for {
+				c0 := mc.RecvC(gwAck)
+				if mc.Select(true, c0) != 0 {
+					break
+				}
+			}
 			deadline := mc.Now() + T
 			seq := gOut
 			for {
@@ -414,7 +426,7 @@ func init() {
 	// "status 0" the pinned client reports success for a telegram that never reached the bus, which is
 	// the gateway's doing. How the client treats error statuses is C03's subject.)
 	// a reconnect in the middle of the stream: numbering restarts in both directions
-	rc := c05Params{R: 100, T: 150, out: 3, in: 3, reconn: true}
+	rc := c05Params{R: 100, T: 150, out: 3, in: 3, reconn: true, dupNow: true}
 	register("both", &h.Scenario{Name: "C05-direct-3out-3in-reconnect-after-first-F2", Prop: "C05", P: 0, F: 2, D: -1, Run: c05Run(rc), Check: c05Oracle(rc)})
 	e := c05Params{R: 100, T: 350, out: 3, in: 3, dupDelay: true}
 	register("thorough", &h.Scenario{Name: "C05-direct-3out-3in-F3", Prop: "C05", P: 0, F: 3, D: -1, Run: c05Run(e), Check: c05Oracle(e)})
